@@ -14,6 +14,17 @@ GOBIN = "/root/go/pkg/mod/golang.org/toolchain@v0.0.1-go1.23.12.linux-amd64/bin"
 TLA_CP = "/opt/veriftools/tla/tla2tools.jar:/opt/veriftools/tla/CommunityModules-deps.jar"
 
 
+def race_in_code_under_test(stderr):
+    """The first race report both of whose conflicting accesses happen outside the harness (their innermost frames are in
+    forwarder or in a library it calls, not in internal/zzverif); "" if there is none."""
+    for block in stderr.split("WARNING: DATA RACE")[1:]:
+        block = block.split("==================")[0]
+        tops = re.findall(r"(?:Read|Write|Previous read|Previous write) at [^\n]*\n\s+(\S+)", block)
+        if len(tops) >= 2 and not any("internal/zzverif" in t or t.startswith("main.") for t in tops[:2]):
+            return "WARNING: DATA RACE" + block
+    return ""
+
+
 class Infra(Exception):
     """Infrastructure failure: exit 2, never a verdict."""
 
@@ -246,6 +257,8 @@ class Ctx:
             # a crash inside forwarder code is a verdict (C08, C12); anything else is infrastructure
             if ("panic:" in err or "fatal error:" in err) and re.search(r"github\.com/saucelabs/forwarder(?:\.|/(?!internal/zzverif))", err):
                 res.append({"crash": True, "stderr": err})
+            elif "WARNING: DATA RACE" in p.stderr and race_in_code_under_test(p.stderr):
+                res.append({"crash": True, "stderr": race_in_code_under_test(p.stderr)[-6000:]})
             else:
                 sys.stderr.write(err)
                 raise Infra("harness exited with %s" % p.returncode)
